@@ -23,15 +23,20 @@ RULE = ("port trees: 1..24 names per table over {a b c} + digits (lengths 1..3, 
         "frequent), leaves with/without ':types' (also two leaves with the same name and different types), "
         "'#N' enumerations in about a third of the tables (such tables take the linear scan, the others the "
         "perfect hash when the library finds one), sub-trees 'name/' and 'name#N/' nested up to 4 levels, "
-        "default handler on about a quarter of the tables, an occasional literal multi-component name (a/b); "
+        "default handler on about a quarter of the tables; in about a third of the tables names of several address "
+        "components, with and without '#N', as leaves and as sub-trees at every depth (a#2/b#3/, a#2/k#2:i, x/y/, u/v/w/; "
+        "a '#'-free table holding one takes the linear scan too); "
         "addresses derived from a randomly chosen port path: exact, one character appended / removed / changed, "
         "index N-1 / N / N+1 / leading zeros, '/' dropped or doubled, leading '/' dropped, plus random short "
         "addresses; type strings equal to an alternative, a proper extension of one (the text leaves that verdict open: the two runs must then agree), with the first tag changed, with the last tag dropped, or unrelated. "
         "Each case is dispatched twice (with and without location buffer).  Non-trivial = the table of the "
         "addressed port has >= 3 ports and at least one callback was invoked or a near-miss address was used.")
 TRUSTED = ["harness/h_C04.cpp: Ports subclass filling the public `ports` vector and calling refreshMagic(); callbacks "
-           "that record (port, msg offset, d.obj, d.loc, d.port) and re-dispatch like rRecurCb/rRecursCb (SNIP, "
-           "child object); hooks Ports::verif_tables (add-only, RTOSC_VERIF)",
+           "that record (port, msg offset, d.obj, d.loc, d.port) and re-dispatch like rRecurCb/rRecursCb (index at the '#', "
+           "SNIP of one component per '/' of the port's name, child object); a third of the sub-tree ports are served by the "
+           "library's own rRecurCb / rRecursCb (port-sugar.h) behind the recording wrapper, a proxy `ports` object forwards "
+           "their dispatch call to the run-time built sub-table and translates the pointer they computed back to the "
+           "harness's object numbering; hooks Ports::verif_tables (add-only, RTOSC_VERIF)",
            "tools/props/C04.py: the Python Spec oracle (C05's pattern oracle applied level by level)",
            "the perfect-hash search (find_pos, find_assoc) is not modelled: its output is an input of the model; "
            "what is modelled and proved is everything the library does with it"]
@@ -110,6 +115,10 @@ def parse_name(name):
 def child_obj(o, tid, i, n):
     return o * 131 + tid * 17 + i * 7 + n + 1
 
+def macro_port(tid, i):
+    """the harness serves these sub-tree ports with the library's rRecurCb / rRecursCb"""
+    return (tid + i) % 3 == 0
+
 def first_number(m):
     j = 0
     while j < len(m) and not P5.isdig(m[j]):
@@ -147,10 +156,10 @@ def expected(t, addr, ty, chosen=frozenset()):
             loc = b"/" + full[off0:off + end]
             out.append((t.tid, i, off, obj, loc))
             if sub:
-                n = first_number(m) if b"#" in name else 0
-                j = m.find(b"/")
-                noff = off + (j + 1 if j >= 0 else len(m))
-                level(sub, noff, child_obj(obj, t.tid, i, n))
+                # the level below is addressed by what follows the matched name; the
+                # index an enumerated parent hands down is the one spelled at its first '#'
+                n = first_number(m[name.index(b"#"):]) if b"#" in name else 0
+                level(sub, off + end, child_obj(obj, t.tid, i, n))
         if not hit:
             nomatch_tabs.add(t.tid)
     level(t, off0, 1)
@@ -269,7 +278,13 @@ def nontrivial(case, impl):
 # ---- generator -------------------------------------------------------------------
 TYSPECS = [b"", b"", b"", b":i", b"::i", b":i:f", b":ii", b":", b":s:i", b":if:i", b":ii:f", b":i:ii"]
 
-def gen_names(rng, n, allow_hash, allow_sub, friendly=False):
+def component(rng, allow_hash):
+    c = bytes(rng.choice(b"abck") for _ in range(rng.choice([1, 1, 2])))
+    if allow_hash and rng.random() < 0.5:
+        c += b"#" + str(rng.choice([1, 2, 3, 4, 10])).encode()
+    return c
+
+def gen_names(rng, n, allow_hash, allow_sub, friendly=False, multi=False):
     names, seen = [], set()
     keys = set()
     tries = 0
@@ -280,7 +295,7 @@ def gen_names(rng, n, allow_hash, allow_sub, friendly=False):
         if rng.random() < 0.15:
             base += bytes([rng.choice(b"012")])
         if names and rng.random() < 0.25:                  # anagram / prefix / extension of an earlier one
-            b0 = rng.choice(names).split(b":")[0].split(b"#")[0].rstrip(b"/")
+            b0 = rng.choice(names).split(b":")[0].split(b"#")[0].split(b"/")[0]
             if b0:
                 r = rng.random()
                 if r < 0.4:
@@ -294,7 +309,10 @@ def gen_names(rng, n, allow_hash, allow_sub, friendly=False):
             if P5.isdig(name[-1]):
                 name += b"x"
             name += b"#" + str(rng.choice([1, 2, 3, 4, 10, 16])).encode()
-        sub = allow_sub and rng.random() < 0.3
+        if multi and rng.random() < 0.4:                   # a name of several address components: a#2/b#3/ x/y/ a#2/k#2:i u/v/w
+            for _ in range(rng.choice([1, 1, 1, 2])):
+                name += b"/" + component(rng, allow_hash)
+        sub = allow_sub and rng.random() < (0.45 if b"/" in name else 0.3)
         if sub:
             name += b"/"
         else:
@@ -323,7 +341,8 @@ def gen_tree(rng, depth, counter, maxdepth):
     n = rng.choice([1, 2, 3, 3, 4, 4, 5, 6, 8, 10, 12, 16, 20, 24]) if depth == 0 else rng.choice([1, 2, 3, 4, 6, 9])
     friendly = rng.random() < 0.45          # literal names with distinct keys: the library hashes these
     allow_hash = (not friendly) and rng.random() < 0.5
-    names = gen_names(rng, n, allow_hash, depth + 1 < maxdepth, friendly)
+    multi = rng.random() < (0.2 if friendly else 0.35)   # a '#'-free table with such a name is not hashed either
+    names = gen_names(rng, n, allow_hash, depth + 1 < maxdepth, friendly, multi)
     if not friendly and rng.random() < 0.08:
         names.insert(rng.randrange(len(names) + 1), rng.choice([b"a/b", b"b/a", b"ab/c", b"a/b:i"]))
     tid = counter[0]; counter[0] += 1
@@ -448,6 +467,18 @@ def gen(rng, tier, dist):
                 dist["table-hashed-with>=8-ports"] = dist.get("table-hashed-with>=8-ports", 0) + 1
             if tb.dflt:
                 dist["table-with-default-handler"] = dist.get("table-with-default-handler", 0) + 1
+            lit_multi_sub = False
+            for i, (name, sub) in enumerate(tb.ports):
+                key = name.split(b":")[0]
+                if b"/" in key.rstrip(b"/"):
+                    kk = "port-multi-component-%s-%s" % ("enumerated" if b"#" in key else "literal", "subtree" if sub else "leaf")
+                    dist[kk] = dist.get(kk, 0) + 1
+                    lit_multi_sub = lit_multi_sub or (sub is not None)
+                if sub and macro_port(tb.tid, i):
+                    kk = "subtree-port-served-by-" + ("rRecursCb" if b"#" in key else "rRecurCb")
+                    dist[kk] = dist.get(kk, 0) + 1
+            if lit_multi_sub and not any(b"#" in nm for nm, _ in tb.ports):
+                dist["table-without-#-with-multi-component-subtree-name"] = dist.get("table-without-#-with-multi-component-subtree-name", 0) + 1
         nt = sum(1 for _ in walk(t))
         dist["trees-with-%d-tables" % min(nt, 6)] = dist.get("trees-with-%d-tables" % min(nt, 6), 0) + 1
         s = ".".join(ser(t))
@@ -475,9 +506,14 @@ LEVEL_TEXT = ("Proved per table of Ports::dispatch, for ANY callbacks, any numbe
               "invokes a port whose name does not match (C04_hash_sound); the callback sees its own Port, loc = location + "
               "its name, and the buffer is restored (C04_port_pointer_and_loc, C04_loc_restored_*). The pinned functions are "
               "refuted on {ab,ba,aa,bb}, {c,a/b}, {a,bcd} (C04_pinned_refuted, C04_multicomponent_refuted, "
-              "C04_prefix_refuted; three fix: commits). NOT proved in Coq (checked by the correspondence run and the Spec "
-              "oracle on generated trees only): the composition over the levels of a tree (loc is the full address at every "
-              "depth, matches = number of leaf callbacks of the whole descent, object threading).")
+              "C04_prefix_refuted; three fix: commits). Proved for a tree of any depth (Ports/TreeProofs.v): a root dispatch "
+              "logs exactly spec_events with and without buffer (C04_tree_dispatch_*), matches = leaf callbacks "
+              "(C04_matches_count), own Port (C04_port_pointer), same callbacks with and without buffer "
+              "(C04_tree_strategy_independent), one leaf for an addressed path (C04_exactly_one_leaf); for names of the "
+              "documented form with ANY number of address components (a#2/b#3/, x/y/, a#2/k#2:i) every callback's loc is a "
+              "prefix of the full address and a leaf's loc is the full address (C04_loc_full_address), the table below a "
+              "sub-tree port receives exactly what follows the matched name (C04_snip_strips_matched_name), the index handed "
+              "down is the one spelled at the '#' (C04_index_at_hash).")
 LEVEL_NOTE = ("Trusted: Coq kernel, extraction, OCaml driver, harness (run-time built Ports, re-dispatching callbacks), the hook "
               "Ports::verif_tables, generators, the Python Spec oracle. The perfect-hash search is not modelled: its output "
               "is an input. Strategy independence is stated for literal single-component names (what the library hashes); "
